@@ -1,4 +1,4 @@
-CONSTANTS SIZES = {2}  TMAX = 3  WMAX = 4  MAXE = 3  MAXW = 1  ITERS = 1  KEYS = {1, 2}  BEFORE = FALSE
+CONSTANTS SIZES = {2}  TMAX = 2  WMAX = 3  MAXE = 3  MAXW = 1  ITERS = 1  KEYS = {1, 2}  BEFORE = TRUE  FIX_F4 = TRUE
 SPECIFICATION Spec
-INVARIANTS TypeOK C13_All
+INVARIANTS TypeOK C13_All C06_Late EmitReplay
 CHECK_DEADLOCK FALSE
